@@ -151,7 +151,7 @@ Giga = Prefix(10, 9, name="giga", symbol="G")
 Mega = Prefix(10, 6, name="mega", symbol="M")
 Kilo = Prefix(10, 3, name="kilo", symbol="k")
 Hecto = Prefix(10, 2, name="hecto", symbol="h")
-Deca = Prefix(10, 1, name="deca", symbol="d")
+Deca = Prefix(10, 1, name="deca", symbol="da")
 Deci = Prefix(10, -1, name="deci", symbol="d")
 Centi = Prefix(10, -2, name="centi", symbol="c")
 Milli = Prefix(10, -3, name="milli", symbol="m")
